@@ -88,7 +88,7 @@ if __name__ == "__main__":
     print(module_text(export(NETCDF_LIBS if "netcdf" in sys.argv else CSV_LIBS)))
 
 
-def doc_export(netcdf=False):
+def doc_export(netcdf=False, probe=None):
     """[[command, [[parameter, kind word, required], ...]], ...] parsed from /repo/docs/user/lib-eems-*.rst (".. function::" / ":param X: (:ref:`param-kind`) *Optional*.")"""
     import os
     import re
@@ -110,6 +110,15 @@ def doc_export(netcdf=False):
                 if m and cur:
                     refs = re.findall(r":ref:`param-([\w-]+)`", m.group(2))
                     cur[1].append([m.group(1), refs[0] if refs else "other", not m.group(3)])
+    for c in out:
+        c.append("")        # fuzziness of the result: not stated in the documentation
+    if probe is None:
+        probe = not netcdf        # (the probe library vextra is part of the CSV library set of the validation checks)
+    if not probe or not out:
+        return out
+    # the probe library's own "documentation" (probe_libs/vextra.py): NotAgain is FuzzyNot under another name
+    out.append(["Extras", [["Key", "string", True], ["Opt", "number", False]], "plain"])
+    out.append(["NotAgain", [["InFieldName", "result", True]], "fuzzy"])
     return out
 
 
